@@ -87,6 +87,12 @@ def memberTags : List Particle → List QName
   | .elem q _ _ _ :: ps => q :: memberTags ps
   | _ :: ps => memberTags ps
 
+def Particle.isOrderIndicator : Particle → Bool
+  | .seq .. => true
+  | .choice .. => true
+  | .all .. => true
+  | _ => false
+
 mutual
 /-- `parse_xmlelements` of a particle on the deque `xs` -/
 def parseP : Nat → Mode → Particle → List Node → Except Err (Out Inst)
@@ -176,13 +182,11 @@ def seqRound : Nat → Mode → List Particle → Bool → Nat → List Node →
     | .error .unexpected =>
       if mayEnd && xs.length == startLen then pure ⟨none, xs, 1⟩
       else if m == .strict then .error .unexpected
-      else
-        match p with
-        | .seq .. | .choice .. | .all .. => .error .typeError      -- item_result.update(None)
-        | _ =>
-          if xs.isEmpty then pure ⟨some [.failed], xs, 1⟩ else do
-            let r ← seqRound gas m ps mayEnd startLen xs
-            pure ⟨r.val.map (Inst.failed :: ·), r.rest, r.calls + 1⟩
+      else if p.isOrderIndicator then .error .typeError      -- item_result.update(None)
+      else if xs.isEmpty then pure ⟨some [.failed], xs, 1⟩
+      else do
+        let r ← seqRound gas m ps mayEnd startLen xs
+        pure ⟨r.val.map (Inst.failed :: ·), r.rest, r.calls + 1⟩
     | .error e => .error e
     | .ok r =>
       if r.rest.isEmpty then pure ⟨some [r.val], [], r.calls⟩
